@@ -1107,6 +1107,32 @@ def bl4(ctx, R):
     prog = ctx.prog
     TS = prog.cls("timestamp.TdmsTimestamp")
     tinit = prog.func("timestamp.TdmsTimestamp.__init__")
+    # 0: the field ORDER differs between the byte orders, so a record dtype with both fields written in one fixed order cannot be turned
+    #    into the other layout by .newbyteorder(<the segment's byte order>)
+    def record_fields(e, mod):
+        """field names of a dtype spec [('a', ..), ('b', ..)] given directly, through np.dtype(...), or through a module-level name"""
+        if isinstance(e, ast.Call) and call_name(e) in ("np.dtype", "numpy.dtype") and e.args:
+            return record_fields(e.args[0], mod)
+        if isinstance(e, ast.Name) and e.id in mod.assigns:
+            return record_fields(mod.assigns[e.id], mod)
+        if isinstance(e, (ast.List, ast.Tuple)) and e.elts and all(isinstance(x, ast.Tuple) and x.elts and isinstance(x.elts[0], ast.Constant) for x in e.elts):
+            return [x.elts[0].value for x in e.elts]
+        return None
+    n0 = 0
+    for f_ in sorted(prog.functions.values(), key=lambda f: f.qual):
+        if f_.module.name in ("writer",):
+            continue
+        for c_ in walk_body(f_.node):
+            if isinstance(c_, ast.Call) and isinstance(c_.func, ast.Attribute) and c_.func.attr == "newbyteorder" and c_.args:
+                flds = record_fields(c_.func.value, f_.module)
+                if flds and {"seconds", "second_fractions"} <= set(flds):
+                    n0 += 1
+                    arg = c_.args[0]
+                    fixed = isinstance(arg, ast.Constant)
+                    R.check(fixed, "%s::timestamp record byte order" % f_.qual, f_.where(c_), "constant byte order on a record dtype",
+                            "`%s`: the timestamp record (%s) is given the segment's byte order with newbyteorder, but big-endian timestamps also store the "
+                            "two fields in the opposite order (seconds first): both fields are read from the wrong half of the record" % (
+                                unparse(c_)[:70], ", ".join(flds)))
     # 1/2: encoders pack '<Qq' (fractions, seconds)
     for q, role in (("types.TimeStamp.__init__", "encoder"), ("timestamp.TdmsTimestamp.bytes", "raw encoder")):
         fi = prog.func(q)
@@ -1291,6 +1317,11 @@ def bl4(ctx, R):
 
     def is_store_base(f_, b):
         d_ = dotted(b)
+        if isinstance(b, ast.Name) and f_.cls is tdr:
+            # a local that holds the field: data = self.data (bound once)
+            binds = [x.value for x in walk_body(f_.node) if isinstance(x, ast.Assign) and any(isinstance(t_, ast.Name) and t_.id == b.id for t_ in x.targets)]
+            if len(binds) == 1 and dotted(binds[0]) == "self.data":
+                return True
         return d_ == "self.data" or (f_.cls is not tdr and isinstance(b, ast.Name) and b.id in f_.params)
     for fi, n in [(m, n) for m in ts_funcs for n in walk_body(m.node)]:
         if isinstance(n, ast.Assign) and len(n.targets) == 1 and isinstance(n.targets[0], ast.Subscript):
@@ -1312,7 +1343,8 @@ def bl4(ctx, R):
                 R.check(same_, "channel_data.TimestampDataReceiver::field %s" % fld, fi.where(n),
                         "copies field %r by name" % fld, "field %r is filled from `%s`" % (fld, unparse(v)))
     if n_assign < 1:
-        raise AnchorMissing("channel_data.TimestampDataReceiver: stores into self.data")
+        R.unrecognised("channel_data.TimestampDataReceiver::stores", "%s:%d" % (tdr.module.relpath, tdr.node.lineno),
+                       "no subscript store into self.data in the timestamp receiver or its helpers: how chunks are copied was not recognised")
 
 
 def _endian_branches(fi):
